@@ -195,6 +195,24 @@ func runC17(e *env) error {
 			}
 			p.Convs = append(p.Convs, c)
 		}
+		if i%8 == 3 && len(p.Convs) >= 2 {
+			// pinned: the converter that sorts FIRST fails in the generation stage, every later one is fine
+			for j, c := range p.Convs {
+				c.Fault = ""
+				if j == 0 {
+					c.Fault, c.Vars = "conversion", false
+				}
+			}
+		}
+		if i%8 == 7 && len(p.Convs) >= 2 {
+			// pinned: only the converter that sorts LAST fails
+			for j, c := range p.Convs {
+				c.Fault = ""
+				if j == len(p.Convs)-1 {
+					c.Fault, c.Vars = "conversion", false
+				}
+			}
+		}
 		if i%5 == 0 { // keep a share of fully successful runs
 			for _, c := range p.Convs {
 				c.Fault = ""
